@@ -51,6 +51,7 @@ def guarded(fn, *args):
 SESSIONS = [dict(local_as=65001, peer_as=peer, our_asn4=True, peer_asn4=a4, addpath=ap, extnh=False, extmsg=em, aigp=True)
             for peer in (65001, 65002) for a4 in (True, False) for ap in (False, True) for em in (False, True)]
 QUICK_SESSIONS = [0, 3, 5, 6, 9, 10, 12, 15]   # every value of every dimension, every pair of dimensions covered at least once
+QUICK_PAIR_SESSIONS = [0, 6, 9, 15]            # every value of every dimension
 CONFIG_SESSION = 8   # eBGP, ASN4, no ADD-PATH, 4096: the neighbor written in the configuration file
 
 
@@ -943,7 +944,7 @@ def worker(args):
     tier, phase, shard, nshards, single_index = args
     singles, pairs = enumerate_cases(tier)
     cases = singles if phase == 'single' else pairs if phase == 'pair' else multi_cases()
-    sess = sess_for(tier)
+    sess = QUICK_PAIR_SESSIONS if (tier == 'quick' and phase == 'pair') else sess_for(tier)
     G = T.grammars()
     res = {'exec': 0, 'viol': {}, 'outcomes': {}, 'nontrivial': 0, 'samples': [], 'single_index': [], 'explained': 0, 'by_path': {}, 'hang_pairs_skipped': 0}
     for idx, case in enumerate(cases):
@@ -1058,7 +1059,7 @@ def run(ctx: core.Ctx) -> None:
     for k in agg['outcomes']:
         ctx.add_to_set('outcomes', k)
     if tier == 'quick':
-        ctx.cap('quick: pairs only for the route4/flow/vpls grammars on the api path, without the long-list deviations, one order; 8 of 16 sessions')
+        ctx.cap('quick: pairs only for the route4/flow/vpls grammars on the api path, without the long-list deviations, one order; 8 of the 16 sessions for single deviations, 4 for pairs')
     else:
         ctx.cap('thorough: pairs not enumerated for the cb path, the family grammars other than ipv4 unicast, and long-list deviations on the configuration path')
 
